@@ -441,6 +441,8 @@ def main(argv):
             bad = []
         seen_min = set()
         unexplained = 0
+        shrink_budget = 240 if tier == "quick" else 900
+        shrink_t0 = [0]
         for (c, hs, io, mo) in bad:
             cl0 = prop.classify(c, io, mo)
             if cl0 is not None and cl0 in findings:
@@ -450,10 +452,14 @@ def main(argv):
             unexplained += 1
             if unexplained > 25:
                 continue
-            if args.replay or (hasattr(prop, "should_shrink") and not prop.should_shrink(c, io, mo)):
+            # minimisation shares one time budget per run: a broken tree must still be reported quickly
+            left = shrink_budget - (time.time() - shrink_t0[0]) if shrink_t0[0] else shrink_budget
+            if args.replay or left < 10 or (hasattr(prop, "should_shrink") and not prop.should_shrink(c, io, mo)):
                 small = c
             else:
-                small = shrink(prop, c, hs, case_timeout)
+                if not shrink_t0[0]:
+                    shrink_t0[0] = time.time()
+                small = shrink(prop, c, hs, case_timeout, budget_s=min(left, 120))
             if small is not c:
                 b2, mo2, ib2 = evaluate(prop, [small], [hs], case_timeout)
                 if b2:
